@@ -553,6 +553,35 @@ func main() {
 			}
 		}
 	}
+	// the order natives on long tie-rich arrays (stability; sort algorithms change behaviour above
+	// small-array thresholds)
+	{
+		byName := map[string]native{}
+		for _, n := range nats {
+			byName[n.name] = n
+		}
+		for _, v := range tieRichArrays(r, ctx.N(60, 600)) {
+			xs := v.([]any)
+			for _, name := range []string{"sort", "unique", "min", "max"} {
+				if n, ok := byName[name]; ok {
+					record(n, tuple{v, nil})
+				}
+			}
+			if len(xs) > 0 {
+				if p, ok := xs[0].([]any); ok && len(p) == 2 {
+					ks := make([]any, len(xs))
+					for j, x := range xs {
+						ks[j] = []any{x.([]any)[0]}
+					}
+					for _, name := range []string{"_sort_by", "_group_by", "_unique_by", "_min_by", "_max_by"} {
+						if n, ok := byName[name]; ok {
+							record(n, tuple{v, []any{ks}})
+						}
+					}
+				}
+			}
+		}
+	}
 	// random larger values
 	opts := common.DefaultGen
 	opts.NonFinite = true
